@@ -306,9 +306,7 @@ theorem scaleRow_structure (bad : K) (divide : Bool) (ai i1 i2 : List Nat) (visR
       visRe[p1]? = some a1 → visRe[p2]? = some a2 → wRow[k]? = some w →
       out[k]? = some (kernelImpl bad divide a1 a2 w) := by
   unfold scaleRow at h
-  cases hs : mapME (fun a => match getNat visRe a with
-      | .error e => .error e
-      | .ok v => .ok (if divide then v.recip else v)) ai with
+  cases hs : mapME (autoScaleAt divide visRe) ai with
   | error e => simp [hs] at h
   | ok autoScale =>
     simp only [hs] at h
@@ -319,9 +317,11 @@ theorem scaleRow_structure (bad : K) (divide : Bool) (ai i1 i2 : List Nat) (visR
     obtain ⟨y, hy, hf⟩ := hp k k (List.getElem?_range hk)
     obtain ⟨s1, hs1, hf1⟩ := hsp j1 p1 ha1
     obtain ⟨s2, hs2, hf2⟩ := hsp j2 p2 ha2
+    unfold autoScaleAt at hf1 hf2
     rw [getNat_ok.2 hv1] at hf1
     rw [getNat_ok.2 hv2] at hf2
     simp only [Except.ok.injEq] at hf1 hf2
+    unfold scaleElem at hf
     rw [getNat_ok.2 hi1, getNat_ok.2 hi2, getNat_ok.2 hw] at hf
     simp only [getNat_ok.2 hs1, getNat_ok.2 hs2, Except.ok.injEq] at hf
     rw [hy, ← hf, ← hf1, ← hf2]
@@ -333,10 +333,9 @@ theorem scaleRow_total (bad : K) (divide : Bool) (ai i1 i2 : List Nat) (visRe wR
     (hw : wRow.length = visRe.length) (hj1 : ∀ j ∈ i1, j < ai.length) (hj2 : ∀ j ∈ i2, j < ai.length) :
     ∃ out, scaleRow bad divide ai i1 i2 visRe wRow = .ok out := by
   unfold scaleRow
-  obtain ⟨autoScale, hs⟩ := mapME_total (f := fun a => match getNat visRe a with
-      | .error e => .error e
-      | .ok v => .ok (if divide then v.recip else v)) (l := ai) (by
+  obtain ⟨autoScale, hs⟩ := mapME_total (f := autoScaleAt divide visRe) (l := ai) (by
     intro p hp
+    unfold autoScaleAt
     rw [getNat_of_lt (hai p hp)]
     exact ⟨_, rfl⟩)
   rw [hs]
@@ -349,11 +348,68 @@ theorem scaleRow_total (bad : K) (divide : Bool) (ai i1 i2 : List Nat) (visRe wR
   have e3 := getNat_of_lt (l := wRow) (i := k) (by omega)
   have b1 : i1[k] < autoScale.length := by rw [hlen]; exact hj1 _ (List.getElem_mem _)
   have b2 : i2[k] < autoScale.length := by rw [hlen]; exact hj2 _ (List.getElem_mem _)
+  unfold scaleElem
   rw [e1, e2, e3]
   simp only [getNat_of_lt b1, getNat_of_lt b2]
   exact ⟨_, rfl⟩
 
 end wps
+
+/-! ### Van Vleck application -/
+
+section vv
+variable {K : Type} [Zero K] [Add K] [Sub K] [Mul K] [Div K] [LT K] [LE K] [DecidableLT K] [DecidableLE K]
+
+theorem vanVleckApply_spec (tbl : List (K × K)) (row : List (Cx (Scalar K))) :
+    ∀ (ps : List Nat) (out0 out : List (Cx (Scalar K))), out0.length = row.length →
+      vanVleckApply tbl row ps out0 = .ok out →
+      out.length = row.length ∧
+      ∀ b : Nat, (b ∉ ps → out[b]? = out0[b]?) ∧
+        (b ∈ ps → ∃ v y, row[b]? = some v ∧ interpS tbl v.re = .ok y ∧ out[b]? = some ⟨y, .val 0⟩) := by
+  intro ps
+  induction ps with
+  | nil =>
+    intro out0 out hl h
+    simp [vanVleckApply] at h
+    subst h
+    exact ⟨hl, fun b => ⟨fun _ => rfl, fun hb => by simp at hb⟩⟩
+  | cons p ps ih =>
+    intro out0 out hl h
+    unfold vanVleckApply at h
+    cases hr : row[p]? with
+    | none => simp [hr] at h
+    | some v =>
+      cases hi : interpS tbl v.re with
+      | error e => simp [hr, hi] at h
+      | ok y =>
+        simp only [hr, hi] at h
+        have hl1 : (out0.set p ⟨y, .val 0⟩).length = row.length := by simp [hl]
+        obtain ⟨hlen, hall⟩ := ih _ out hl1 h
+        refine ⟨hlen, ?_⟩
+        intro b
+        have hp : p < row.length := by
+          have := List.getElem?_eq_some_iff.1 hr
+          exact this.1
+        constructor
+        · intro hb
+          have hbp : b ≠ p := fun e => hb (by simp [e])
+          have hbps : b ∉ ps := fun e => hb (List.mem_cons_of_mem _ e)
+          rw [(hall b).1 hbps, List.getElem?_set]
+          simp [Ne.symm hbp]
+        · intro hb
+          by_cases hbps : b ∈ ps
+          · exact (hall b).2 hbps
+          · have hbp : b = p := by
+              simp at hb
+              rcases hb with hb | hb
+              · exact hb
+              · exact absurd hb hbps
+            subst hbp
+            refine ⟨v, y, hr, hi, ?_⟩
+            rw [(hall b).1 hbps, List.getElem?_set]
+            simp [hl, hp]
+
+end vv
 
 /-! ### chunk splitting -/
 
